@@ -99,7 +99,11 @@ type sreq struct {
 	Protos     []string `json:"protos"`
 	Exts       []string `json:"exts"`
 	ExtLines   int      `json:"extLines"` // 0/1: one header line, 2: one line per extension
-	keyValue   string
+	VerForm    int      `json:"verForm"`  // which spelling of a "garbage" version
+	// ProtoBad: the Sec-WebSocket-Protocol value violates the token-list grammar before any token the
+	// selector could accept (RFC 6455 4.2.2: a handshake violating the ABNF must be refused)
+	ProtoBad string `json:"protoBad"`
+	keyValue string
 }
 
 type scfg struct {
@@ -201,7 +205,10 @@ func (q *sreq) render(rng *rand.Rand) []byte {
 		add("Sec-WebSocket-Key", q.Key, key, func() string { return key }, "")
 	}
 	var protoLines, extLines []string
-	if len(q.Protos) > 0 {
+	if q.ProtoBad != "" {
+		protoLines = []string{"Sec-WebSocket-Protocol: " + q.ProtoBad}
+		lines = append(lines, protoLines...)
+	} else if len(q.Protos) > 0 {
 		if rng.Intn(2) == 0 || len(q.Protos) == 1 {
 			protoLines = []string{caseVar("Sec-WebSocket-Protocol", rng.Intn(4)) + ": " + strings.Join(q.Protos, []string{", ", ",", " , "}[rng.Intn(3)])}
 		} else { // split over two header lines
@@ -257,7 +264,7 @@ func (q *sreq) render(rng *rand.Rand) []byte {
 	}
 	ver := "HTTP/" + q.Version
 	if q.Version == "garbage" {
-		ver = []string{"HTP/1.1", "HTTP/1", "HTTP/x.y", ""}[rng.Intn(4)]
+		ver = garbageVersions[q.VerForm%len(garbageVersions)]
 	}
 	eol := "\r\n"
 	if rng.Intn(4) == 0 {
@@ -265,6 +272,10 @@ func (q *sreq) render(rng *rand.Rand) []byte {
 	}
 	return []byte(q.Method + " /chat?x=1 " + ver + eol + strings.Join(lines, eol) + eol + eol)
 }
+
+// spellings that are not an HTTP-version (RFC 7230 2.6: "HTTP/" DIGIT "." DIGIT), among them the
+// bytes 0x3A-0x3F that follow '9' and a digit followed by junk
+var garbageVersions = []string{"HTP/1.1", "HTTP/1", "HTTP/x.y", "", "HTTP/1.:", "HTTP/1.?", "HTTP/1.;", "HTTP/:.1", "HTTP/1.1x", "HTTP/1.", "HTTP/.1", "HTTP/1,1", "HTTP/1.=", "HTTP/1./"}
 
 type sobs struct {
 	ErrNil           bool     `json:"errNil"`
